@@ -2,6 +2,7 @@ package shapecase
 
 import (
 	"math"
+	"math/bits"
 	"sort"
 	"sync"
 	"unicode/utf8"
@@ -23,14 +24,37 @@ type Source interface {
 	Intn(label string, n int) int
 }
 
-// RapidSource draws from a rapid test.
+// RapidSource draws from a rapid test. rapid's integer generators are deliberately biased toward
+// small values (IntRange(0,99) is below 8 about half of the time), which would distort every
+// weighted choice below; choices are therefore assembled from unbiased bits (rapid.Bool), which
+// still shrink toward 0.
 type RapidSource struct{ T *rapid.T }
+
+var uniformGens = map[int]*rapid.Generator[int]{}
+
+func uniform(n int) *rapid.Generator[int] {
+	if g, ok := uniformGens[n]; ok {
+		return g
+	}
+	k := bits.Len(uint(n-1)) + 3
+	g := rapid.Custom(func(t *rapid.T) int {
+		v := 0
+		for i := 0; i < k; i++ {
+			if rapid.Bool().Draw(t, "bit") {
+				v |= 1 << i
+			}
+		}
+		return v % n
+	})
+	uniformGens[n] = g
+	return g
+}
 
 func (s RapidSource) Intn(label string, n int) int {
 	if n <= 1 {
 		return 0
 	}
-	return rapid.IntRange(0, n-1).Draw(s.T, label)
+	return uniform(n).Draw(s.T, label)
 }
 
 // ByteSource consumes fuzz bytes; once exhausted every choice is 0.
@@ -273,13 +297,19 @@ var SpacingValues = []int32{0, 1, -1, 3, -3, 7, 2, -2, 64, -64, 65, -65, 640, 10
 func Params(s Source, c *Case, info *FaceInfo, o Opts) {
 	n := len(c.Text)
 	c.API = APIShaping
-	if !o.ValidOnly && !o.NoHB && s.Intn("api", 100) < 45 {
+	if !o.ValidOnly && !o.NoHB && s.Intn("api", 100) >= 55 {
 		c.API = APIHarfbuzz
 	}
 	// run bounds
 	sub := func() {
-		c.RunStart = s.Intn("start", n+1)
-		c.RunEnd = c.RunStart + s.Intn("runlen", n-c.RunStart+1)
+		// mostly a non-empty run strictly inside the text; sometimes empty / at the very end
+		if n == 0 || s.Intn("emptyrun", 8) == 0 {
+			c.RunStart = s.Intn("start", n+1)
+			c.RunEnd = c.RunStart
+			return
+		}
+		c.RunStart = s.Intn("start", n)
+		c.RunEnd = c.RunStart + 1 + s.Intn("runlen", n-c.RunStart)
 	}
 	c.RunStart, c.RunEnd = 0, n
 	switch k := s.Intn("bounds", 10); {
@@ -417,7 +447,7 @@ func Params(s Source, c *Case, info *FaceInfo, o Opts) {
 	if c.API == APIHarfbuzz {
 		c.ClusterLevel = uint8(s.Intn("clusterlevel", 3))
 		flag := func(label string, pct int, f harfbuzz.ShappingOptions) {
-			if s.Intn(label, 100) < pct {
+			if s.Intn(label, 100) >= 100-pct { // 0 (the shrink target, exhausted fuzz bytes) = flag off
 				c.Flags |= uint16(f)
 			}
 		}
@@ -430,15 +460,20 @@ func Params(s Source, c *Case, info *FaceInfo, o Opts) {
 		flag("tatweel", 15, harfbuzz.ProduceSafeToInsertTatweel)
 		c.Invisible = glyphOverrides[s.Intn("invisible", len(glyphOverrides))]
 		c.NotFound = glyphOverrides[s.Intn("notfound", len(glyphOverrides))]
-		c.GuessProps = s.Intn("guessprops", 100) < 15
-		c.UpemScale = s.Intn("upemscale", 100) < 30
+		c.GuessProps = s.Intn("guessprops", 100) >= 85
+		c.UpemScale = s.Intn("upemscale", 100) >= 70
 		c.Ptem = []float32{0, 0, 0, float32(c.Size) / 64, 9, 144}[s.Intn("ptem", 6)]
 	}
 	// spacing (C12)
 	c.WordSpacing, c.LetterSpacing, c.StartRun, c.EndRun = 0, 0, false, false
 	if o.Spacing {
-		c.WordSpacing = SpacingValues[s.Intn("wordspacing", len(SpacingValues))]
-		c.LetterSpacing = SpacingValues[s.Intn("letterspacing", len(SpacingValues))]
+		// a quarter of the cases leave one amount at zero so that each method is also seen alone
+		if s.Intn("wordspacing0", 4) != 0 {
+			c.WordSpacing = SpacingValues[s.Intn("wordspacing", len(SpacingValues))]
+		}
+		if s.Intn("letterspacing0", 4) != 0 {
+			c.LetterSpacing = SpacingValues[s.Intn("letterspacing", len(SpacingValues))]
+		}
 		c.StartRun = s.Intn("startrun", 2) == 1
 		c.EndRun = s.Intn("endrun", 2) == 1
 	}
@@ -459,7 +494,7 @@ func Draw(t *rapid.T, face int, o Opts) Case {
 	c := Case{Font: f.File, Index: f.Index}
 	scripts := []string(nil)
 	// mostly the scripts the font was made for (plus latin); sometimes anything
-	if len(info.Alphabets) > 0 && rapid.IntRange(0, 9).Draw(t, "ownscripts") < 7 {
+	if len(info.Alphabets) > 0 && s.Intn("ownscripts", 10) < 7 {
 		scripts = append(scripts, info.Alphabets...)
 		scripts = append(scripts, "latin")
 	}
@@ -470,12 +505,29 @@ func Draw(t *rapid.T, face int, o Opts) Case {
 	c.Text = textgen.Text(t, textgen.Opts{
 		MaxLen: maxLen, FontPool: textgen.FontRunes(f.Face.Font, FontPoolSize), Scripts: scripts, Hostile: 12, NoInvalid: o.ValidOnly,
 	})
+	if len(c.Text) < 2 && s.Intn("allowshort", 4) != 0 {
+		// textgen's lengths are strongly biased toward 0; keep empty and one-rune texts, but rarer
+		c.Text = append(c.Text, textgen.Text(t, textgen.Opts{
+			MaxLen: maxLen - len(c.Text), FontPool: textgen.FontRunes(f.Face.Font, FontPoolSize), Scripts: scripts, Hostile: 12, NoInvalid: o.ValidOnly,
+		})...)
+	}
+	if o.Spacing && len(c.Text) > 0 && s.Intn("separators", 3) == 0 {
+		// C12: make sure the documented word separators (not only U+0020) occur
+		for k := 1 + s.Intn("nsep", 3); k > 0 && len(c.Text) < maxLen; k-- {
+			at := s.Intn("sepat", len(c.Text)+1)
+			sep := WordSeparators[s.Intn("sep", len(WordSeparators))]
+			c.Text = append(c.Text[:at], append([]rune{sep}, c.Text[at:]...)...)
+		}
+	}
 	if c.Text == nil {
 		c.Text = []rune{}
 	}
 	Params(s, &c, info, o)
 	return c
 }
+
+// WordSeparators is the list documented by shaping.Output.AddWordSpacing (CSS Text 3 word separators).
+var WordSeparators = []rune{0x0020, 0x00A0, 0x1361, 0x10100, 0x10101, 0x1039F, 0x1091F}
 
 // Decode turns fuzz input into a case: the face is fontIndex modulo the number of faces, the text
 // is the UTF-8 decoding of text where every invalid byte selects a hostile rune, params feeds the
